@@ -125,6 +125,18 @@ CHECKS = {
         "5 (quick) / 7 (thorough) per device group with fingerprint merge audit.",
    technique="explicit-state BFS of the implementation with a reference model (replay + fork snapshots)",
    ref="3/C10"),
+ "C07": dict(cat="model_checking",
+   text="Explicit-state BFS over start/stop requests (direct and by event) for two modes, the same requests issued from "
+        "environment-armed handlers of the mode's own lifecycle events, environment-held starting/stopping queue events "
+        "cleared in any order, and time; oracles: per-mode automaton over the posted lifecycle events, active-mode list "
+        "and its priority order, completion of accepted starts/stops at quiescence, responsiveness of an active mode "
+        "(stop handler and devices present), and equality of the event/switch/delay/timer/device/light registries with "
+        "the pre-start snapshot whenever everything has stopped.",
+   note="Trusted: virtual loop, registry snapshot in props/c07.py (reads registries through their query attributes). "
+        "Mode m1 has devices, config players and custom code; m2 uses a wait queue. BFS depth 5 (quick) / 6 (thorough) with "
+        "fingerprint merge audit.",
+   technique="explicit-state BFS of the implementation with automaton + registry-diff oracles (replay + fork snapshots)",
+   ref="3/C07"),
 }
 NOT_YET = "check not built yet in this revision (planned, see DESIGN.md section 7)"
 
